@@ -18,6 +18,10 @@ def P(level, rule, quick, thorough, **kw):
     return d
 
 PROPS = {
+    "C17": P("exploration",
+             "seeded histories of 2..7 phases over 1..3 index files x DSN option strings {none, preload, lrucache}: sequential stretches of {sql.Open, Query, Prepare+Stmt.Query, Close, SetMaxOpenConns, SetMaxIdleConns, SetConnMaxIdleTime, advance the fake clock} and concurrent phases of 2..16 tasks using one (often fresh) handle under the seeded scheduler; after every phase each file without an open handle is probed with a non-blocking exclusive flock; non-trivial = a reopen after the last close of a file, or >=2 tasks whose first use of a handle overlaps; distinct = distinct case hash",
+             (1200, 120), (40000, 1200),
+             assumptions=["database/sql hands a freed pooled connection to a random waiter: concurrent phases keep at most one simultaneous waiter (tasks <= MaxOpenConns+1)"]),
     "C12": P("exploration",
              "seeded cases: dataset x 1..3 DSN option strings {none, preload, lrucache+size 0/small/large, both, invalid size} (one file copy per option string) x 4..14 query texts (0..3 group-by columns, matching nothing/everything, unknown columns, unparsable, bound arguments; DB.Query and Prepare+Stmt.Query); non-trivial = a query with >=2 rows or a grouped query without groups; distinct = distinct case hash",
              (1200, 100), (40000, 900)),
